@@ -2,7 +2,12 @@
 
 package mempool
 
-import "sort"
+import (
+	"sort"
+
+	"github.com/google/btree"
+	"github.com/meshplus/bitxhub-kit/types"
+)
 
 // VerifSizes exposes the sizes of the internal indices of a pool created by NewMemPool.
 func VerifSizes(mp MemPool) (prio, park, batched, hashes int, nonBatch uint64) {
@@ -19,4 +24,45 @@ func VerifArrivals(mp MemPool) []int64 {
 	}
 	sort.Slice(ts, func(i, j int) bool { return ts[i] < ts[j] })
 	return ts
+}
+
+// VerifReadyNeverBatched picks what a block of ANOTHER leader can realistically contain from this pool's point of view:
+// the first (in priority order) ready transaction that is not batched here, whose account has nothing batched and
+// uncommitted here and whose nonce is the account's committed nonce, followed by up to j-1 consecutive ready successors.
+func VerifReadyNeverBatched(mp MemPool, j int) []*types.Hash {
+	m := mp.(*mempoolImpl)
+	busy := map[string]bool{}
+	for k := range m.txStore.batchedTxs {
+		busy[k.account] = true
+	}
+	commitOf := func(a string) uint64 {
+		if n, ok := m.txStore.nonceCache.commitNonces[a]; ok {
+			return n
+		}
+		return m.txStore.nonceCache.getAccountNonce(types.NewAddressByStr(a))
+	}
+	var acct string
+	var start uint64
+	found := false
+	m.txStore.priorityIndex.data.Ascend(func(it btree.Item) bool {
+		k := it.(*orderedTimeoutKey)
+		if busy[k.account] || k.nonce != commitOf(k.account) {
+			return true
+		}
+		acct, start, found = k.account, k.nonce, true
+		return false
+	})
+	if !found {
+		return nil
+	}
+	var out []*types.Hash
+	list := m.txStore.allTxs[acct]
+	for n := start; n < start+uint64(j) && list != nil; n++ {
+		item, ok := list.items[n]
+		if !ok || !m.txStore.priorityIndex.data.Has(makeTimeoutKey(acct, item.tx)) {
+			break
+		}
+		out = append(out, item.tx.GetHash())
+	}
+	return out
 }
